@@ -62,15 +62,31 @@ type srvRes struct {
 
 // serverStep runs one request on a fresh real handshake server and records the case.
 func (h *hx) serverStep(cfg srvCfg, host string, now int64, hdr string, items []sym.Item, tag string) (res srvRes) {
-	fresh := h.nextChallenge()
-	nowFn = func() time.Time { return h.w.Time(now) }
-	hostID := h.w.Intern(host)
-	srv := PeerIDAuthHandshakeServer{
+	return h.serverStepOn(nil, cfg, host, now, hdr, items, tag)
+}
+
+func (h *hx) newServerObject(cfg srvCfg, host string) *PeerIDAuthHandshakeServer {
+	return &PeerIDAuthHandshakeServer{
 		Hostname: host,
 		PrivKey:  h.w.Keys[cfg.key].Priv,
 		TokenTTL: cfg.ttl,
 		Hmac:     hmac.New(sha256.New, h.w.Macs[cfg.mac]),
 	}
+}
+
+// serverStepOn runs the request on the given server object after Reset() (the way
+// the type is meant to be reused), or on a fresh one when obj is nil.
+func (h *hx) serverStepOn(obj *PeerIDAuthHandshakeServer, cfg srvCfg, host string, now int64, hdr string, items []sym.Item, tag string) (res srvRes) {
+	fresh := h.nextChallenge()
+	nowFn = func() time.Time { return h.w.Time(now) }
+	hostID := h.w.Intern(host)
+	if obj == nil {
+		obj = h.newServerObject(cfg, host)
+	} else {
+		obj.Reset()
+		h.out.Cover("server_object_reused_after_reset")
+	}
+	srv := obj
 	res.pid = -1
 	func() {
 		defer func() {
@@ -246,9 +262,10 @@ type VerifE2EResult struct {
 	SeenTLS bool
 	SeenSNI string
 	RespHdr string
+	InstKey []byte // ServerPeerIDAuth.HmacKey after the request
 }
 
-var VerifE2EServer func(key crypto.PrivKey, keyNo uint64, mac []byte, ttl time.Duration,
+var VerifE2EServer func(key crypto.PrivKey, keyNo uint64, inst string, mac []byte, ttl time.Duration,
 	tr VerifTransport, host, sni, hdr string) VerifE2EResult
 var VerifE2EClose func()
 
@@ -279,11 +296,16 @@ func (h *hx) e2eStep(cfg srvCfg, host string, now int64, hdr string, items []sym
 	fresh := h.nextChallenge()
 	nowFn = func() time.Time { return h.w.Time(now) }
 	hostID := h.w.Intern(host)
-	res := VerifE2EServer(h.w.Keys[cfg.key].Priv, cfg.key, h.w.Macs[cfg.mac], cfg.ttl, tr, host, sni, hdr)
+	res := VerifE2EServer(h.w.Keys[cfg.key].Priv, cfg.key, "", h.w.Macs[cfg.mac], cfg.ttl, tr, host, sni, hdr)
 	if res.Err != nil {
 		h.out.Cover("e2e_transport_error")
 		return
 	}
+	h.emitE2E(cfg, host, hostID, now, fresh, tr, hdr, items, res)
+}
+
+func (h *hx) emitE2E(cfg srvCfg, host string, hostID uint64, now int64, fresh uint64, tr VerifTransport,
+	hdr string, items []sym.Item, res VerifE2EResult) {
 	pid := int64(-1)
 	if res.Called {
 		if k, ok := h.w.KeyOfID(res.Pid); ok {
